@@ -168,8 +168,13 @@ Definition simple_item (k : ckind) (len : N) (idx : num) : res (option N) :=
 (* the same getters of BasicGarnishData (garnish_impl.rs) *)
 Definition basic_item (k : ckind) (len : N) (idx : num) : res (option N) :=
   let index := usize_of_num idx in
-  if len <=? index then match k with KList => Err 3 | _ => Ok None end
-  else Ok (Some index).
+  match k with
+  | KList =>
+      (* since cb187c5 (C16): a negative index names no item *)
+      if num_ltb idx (Int 0) then Ok None
+      else if len <=? index then Err 3 else Ok (Some index)
+  | _ => if len <=? index then Ok None else Ok (Some index)
+  end.
 Definition get_item (i : dimpl) := match i with Simple => simple_item | Basic => basic_item end.
 
 (* traits/src/helpers/concatenation.rs: inside `while i < len` the item at
